@@ -148,11 +148,9 @@ def make_tree():
     d = tempfile.mkdtemp(prefix="verif_c18_")
     pkg = os.path.join(d, "pkg")
     os.makedirs(os.path.join(pkg, "sub"))
-    for rel in ("__init__.py", "b.py", "a.py", "c.py", "sub/__init__.py", "sub/y.py", "sub/x.py"):
+    for rel in ("__init__.py", "b.py", "a.py", "B.py", "sub/__init__.py", "sub/y.py", "sub/Y.py"):
         with open(os.path.join(pkg, rel), "w") as f:
             f.write('"""m"""\n')
-    with open(os.path.join(pkg, ".hidden.py"), "w") as f:
-        f.write("")
     return d
 
 
@@ -187,7 +185,7 @@ UNBLOCK = ["open", "os.mkdir", "os.remove", "os.rmdir", "shutil.rmtree", "os.sca
 @harness(
     timeout=(200, 600), cls="F", tracing="concrete-after-choice", twin="first", unblock=UNBLOCK,
     code=["pydoctor.model.System.addPackage", "addModuleFromPath", "analyzeModule", "_addUnprocessedModule"],
-    bounds={"quick": "package with 5 entries (3 modules, a sub-package with 2 modules, a dot file): all 120 listing orders of the top directory (the same permutation index, reduced, is applied to the sub-directory)", "thorough": "same"},
+    bounds={"quick": "package with 5 entries (modules a, b, B - two names differing only in case -, a sub-package with modules y and Y): all 120 listing orders of the top directory (the same permutation index, reduced, is applied to the sub-directory)", "thorough": "same"},
     stubs=["Path.iterdir replaced (PosixPath subclass) by a listing in the chosen permutation; real files under a mkdtemp directory"],
     outside="command-line order of several roots (that order is an input, not a nondeterminism)",
 )
